@@ -36,6 +36,10 @@ CONFIGS = {
       'notifier': True, 'max_out': 2, 'max_notifications': 2}, 5),
     ('heap 3 endpoints addressed by a named additional endpoint', {'kind': 'heap', 'n': 2, 'extra': 1, 'ops': NOTIF, 'dup_ops': True,
                                                                    'endpoint_name': 'thrift', 'max_out': 2, 'probe': True}, 6),
+    ('heap opened with an empty server set', {'kind': 'heap', 'n': 0, 'extra': 2, 'ops': NOTIF, 'dup_ops': True, 'max_out': 2, 'probe': True,
+                                              'max_notifications': 4}, 6),
+    ('aperture opened with an empty server set', {'kind': 'aperture', 'n': 0, 'extra': 2, 'min_size': 1, 'ops': NOTIF, 'dup_ops': True, 'max_out': 2,
+                                                  'max_notifications': 4}, 6),
     ('heap notifications during loading', {'kind': 'heap', 'n': 2, 'extra': 1, 'ops': ['Join', 'Leave', 'Gate', 'D', 'C'],
                                            'gate': True, 'notifier': True, 'dup_ops': True, 'max_notifications': 4,
                                            'max_out': 2, 'probe': True}, 8),
